@@ -18,8 +18,7 @@ after every step the handle's internal views agree (len(pf) - from fmd - equals 
 Also checked on every step (the tie of the regenerated inventory, translators/handle2coq.py, to the running code):
 the attributes found in pf.__dict__ and the dynamic fields found on pf.fmd are all in the inventory.
 
-Outside the quantifier (dropped from the store, counted): a copy.copy twin after an edit through the handle it shares
-its fmd object with; handles of an earlier epoch after a successful remove_row_groups (their files are gone); edits
+Outside the quantifier (dropped from the store, counted): handles of an earlier epoch after a successful remove_row_groups (their files are gone); edits
 through a handle that is a selection or that is not at the current epoch of the dataset on disk.
 """
 import copy
@@ -53,7 +52,8 @@ def gen_dataset(rng, force=None):
         if len(nullrgs) == k and k > 1:
             nullrgs = nullrgs[:-1]
     return {"sizes": sizes, "scheme": scheme, "part": part, "nullrgs": nullrgs, "pandas_nulls": force.get("pandas_nulls", rng.random() < 0.75),
-            "index": force.get("index", rng.choice([None, None, "id"])), "seed": rng.randrange(1 << 30)}
+            "index": force.get("index", rng.choice([None, None, "id"])), "seed": rng.randrange(1 << 30),
+            "given": force.get("given", rng.random() < 0.15)}
 
 
 def frame(ds, start, sizes, nullrgs=(), pshift=0):
@@ -104,6 +104,15 @@ def build(ds, root):
 
 def open_ds(ds, path):
     import fastparquet
+    if ds.get("given"):
+        # the constructor-level dtypes= override (an OPTION of the handle: every derived handle and every fresh reference has it)
+        d = dict(fastparquet.ParquetFile(path, pandas_nulls=ds["pandas_nulls"])._dtypes([]))
+        d = {k: v for k, v in d.items() if k != "p"}
+        if "g" in d:
+            d["g"] = np.dtype("float32")
+        if "id" in d:
+            d["id"] = np.dtype("float64")
+        return fastparquet.ParquetFile(path, pandas_nulls=ds["pandas_nulls"], dtypes=d)
     return fastparquet.ParquetFile(path, pandas_nulls=ds["pandas_nulls"])
 
 
@@ -300,7 +309,9 @@ def gen_program(rng, ds, nsteps=None, aim=None):
             sizes = [rng.choice([1, 2, 3, 5]) for _ in range(rng.choice([1, 1, 2, 3]))]
             if k < 0.45:
                 prog.append(["mutate", h, "append", {"sizes": sizes, "start": base, "nullrgs": [0] if rng.random() < 0.4 else [],
-                                                    "pshift": rng.choice([0, 0, 1, 2, -1])}])
+                                                    "pshift": rng.choice([0, 0, 1, 2, -1]),
+                                                    # (multi-file datasets only; ignored for a single file)
+                                                    "sort_pnames": rng.random() < 0.25, "sort_key": rng.choice([None, None, None, "num_rows", "neg_num_rows", "path"])}])
                 prog += [list(o) for o in rng.sample(asked.get(h, []), min(3, len(asked.get(h, []))))] + [["obs", h, "to_pandas", None]]
                 base += 100
                 nrg += len(sizes)
@@ -310,7 +321,8 @@ def gen_program(rng, ds, nsteps=None, aim=None):
                 base += 100
                 prog += [["obs", h, "pickled_twin", None], ["obs", h, "info", None]]
             else:
-                prog.append(["mutate", h, "remove", {"idx": sorted(set(rng.sample(range(max(1, nrg)), min(nrg, rng.choice([1, 1, 2])))))}])
+                prog.append(["mutate", h, "remove", {"idx": sorted(set(rng.sample(range(max(1, nrg)), min(nrg, rng.choice([1, 1, 2]))))),
+                                                    "sort_pnames": rng.random() < 0.3}])
                 prog += [list(o) for o in rng.sample(asked.get(h, []), min(3, len(asked.get(h, []))))] + [["obs", h, "to_pandas", None]]
     # every program ends by asking every live handle the cheap questions
     for h in range(nh):
@@ -322,6 +334,10 @@ def gen_program(rng, ds, nsteps=None, aim=None):
 
 # ---------------------------------------------------------------------------------------------
 # runner
+
+SORT_KEYS = {"num_rows": lambda rg: rg.num_rows, "neg_num_rows": lambda rg: -rg.num_rows,
+             "path": lambda rg: rg.columns[0].file_path or ""}
+
 
 class _Boom(Exception):
     pass
@@ -455,7 +471,13 @@ def run_program(ds, root, prog, observers=None, inventory=None):
             twins = [t for t in H if t is not h and t["alive"] and t["pf"].fmd is pf.fmd]
             try:
                 if mk == "append":
-                    pf.write_row_groups(frame(ds, arg["start"], arg["sizes"], arg.get("nullrgs", ()), arg.get("pshift", 0)), row_group_offsets=offsets(arg["sizes"]))
+                    kw = {}
+                    if arg.get("sort_pnames"):
+                        kw["sort_pnames"] = True
+                    if arg.get("sort_key"):
+                        kw["sort_key"] = SORT_KEYS[arg["sort_key"]]
+                    pf.write_row_groups(frame(ds, arg["start"], arg["sizes"], arg.get("nullrgs", ()), arg.get("pshift", 0)),
+                                        row_group_offsets=offsets(arg["sizes"]), **kw)
                     ok = True
                 elif mk == "append_fail":
                     try:
@@ -470,7 +492,7 @@ def run_program(ds, root, prog, observers=None, inventory=None):
                         out["skipped"] += 1
                         continue
                     try:
-                        pf.remove_row_groups(rgs)
+                        pf.remove_row_groups(rgs, sort_pnames=bool(arg.get("sort_pnames")))
                         ok = True
                     except ValueError:
                         ok = False           # simple file, or a part file shared with row groups that stay: refused before any edit
@@ -488,13 +510,15 @@ def run_program(ds, root, prog, observers=None, inventory=None):
                 _copytree(path, snaps[-1])
                 h["epoch"] = epoch
                 for t in twins:
-                    t["alive"] = False
-                    count("dropped: copy.copy twin sharing the edited fmd object")
-                if mk == "remove":
+                    # (since fix: __getstate__ hands on its own shallow copy of fmd, no twin shares the object; one that does
+                    #  stays in the store - its answers are compared with its own epoch like everybody else's)
+                    count("copy.copy twin sharing the edited fmd object")
+                if mk == "remove" or (mk == "append" and arg.get("sort_pnames") and ds["scheme"] != "simple"):
+                    # (files removed / part files renamed: the files handles of an earlier epoch point to may be gone)
                     for t in H:
                         if t["alive"] and t["epoch"] < epoch:
                             t["alive"] = False
-                            count("dropped: handle of an earlier epoch after remove_row_groups")
+                            count("dropped: handle of an earlier epoch after remove_row_groups / renamed part files")
                 # the edit itself: a fresh open of the dataset now = the edited handle
             else:
                 # a failed edit: the dataset reads as before (C18/C19's subject, needed here as the reference)
